@@ -50,7 +50,19 @@ Shapes ==
   \cup { Bin(o, MkUn(p, x), MkUn(q, y)) : o \in {"seq", "alt"}, p \in U3, q \in U3, x \in L3, y \in L3 }
   \cup { Bin(o, x, Bin(o, y, Bin(o, z, x))) : o \in {"seq", "alt"}, x \in L3, y \in L3, z \in L3 }
   \cup { Bin(o, Bin(o, x, Bin(o, y, z)), x) : o \in {"seq", "alt"}, x \in L3, y \in L3, z \in L3 }
-Exprs == UNION { ExprsOfSize(n) : n \in 1..MaxSize } \cup Shapes
+\* MaxSize = 0: the constructs that exist only with grammar-extras (read by the build with the feature on): PUSH_LITERAL
+\* with literals that need every escape form, node tags in front of terms with prefix and postfix operators, under
+\* operators and on either side of `~` and `|`
+PL(x) == [t |-> "pushlit", s |-> x]
+Tg(x) == [t |-> "tag", a |-> x]
+XLits == { <<97>>, <<>>, <<34, 92, 10, 233, 39>>, <<9, 0, 127, 13>>, <<2309, 92, 34>> }
+XExprs ==
+  { PL(x) : x \in XLits }
+  \cup { Tg(x) : x \in L3 } \cup { Tg(MkUn(op, x)) : op \in U3 \cup {"push"}, x \in L3 } \cup { MkUn(op, Tg(x)) : op \in U3 \cup {"push"}, x \in L3 }
+  \cup { Tg(MkUn("not", MkUn("rep1", x))) : x \in L3 } \cup { Tg(PL(x)) : x \in XLits }
+  \cup UNION { { Bin(o, Tg(x), y), Bin(o, y, Tg(x)), Bin(o, PL(<<34, 92, 10, 233, 39>>), x), Tg(Bin(o, x, y)) } : o \in {"seq", "alt"}, x \in L3, y \in L3 }
+  \cup { MkUn(op, PL(x)) : op \in U3, x \in XLits }
+Exprs == IF MaxSize = 0 THEN XExprs ELSE UNION { ExprsOfSize(n) : n \in 1..MaxSize } \cup Shapes
 
 \* the expression in the exchange format of the harness (what rules_json exports of the real AST)
 RECURSIVE Ast(_)
@@ -58,6 +70,8 @@ Ast(e) ==
   CASE e.t \in {"str", "ins"} -> [t |-> e.t, s |-> e.s]
     [] e.t = "range" -> [t |-> "range", lo |-> e.lo, hi |-> e.hi]
     [] e.t = "id" -> [t |-> "id", n |-> e.n]
+    [] e.t = "pushlit" -> [t |-> "pushlit", s |-> e.s]
+    [] e.t = "tag" -> [t |-> "tag", a |-> Ast(e.a), tag |-> "t"]
     [] e.t = "peek" -> [t |-> "peek", lo |-> e.lo, hi |-> IF e.open THEN 0 ELSE e.hi, open |-> e.open]
     [] e.t \in {"seq", "alt"} -> [t |-> e.t, a |-> Ast(e.a), b |-> Ast(e.b)]
     [] e.t \in {"exact", "min", "max"} -> [t |-> e.t, a |-> Ast(e.a), n |-> e.n]
@@ -67,7 +81,7 @@ Ast(e) ==
 Tys == { [ty |-> "", ch |-> <<>>], [ty |-> "_", ch |-> <<95>>], [ty |-> "@", ch |-> <<64>>], [ty |-> "$", ch |-> <<36>>], [ty |-> "!", ch |-> <<33>>] }
 
 RECURSIVE H(_)
-H(e) == CASE e.t \in {"str", "ins"} -> (3 + 5 * Len(e.s)) % 1009
+H(e) == CASE e.t \in {"str", "ins", "pushlit"} -> (3 + 5 * Len(e.s)) % 1009
           [] e.t = "id" -> 7 [] e.t = "range" -> (e.lo + 11) % 1009 [] e.t = "peek" -> (e.lo + 20) % 1009
           [] e.t \in {"seq", "alt"} -> (17 * H(e.a) + 29 * H(e.b) + 1) % 1009
           [] OTHER -> (31 * H(e.a) + 13 + (IF "n" \in DOMAIN e THEN e.n % 7 ELSE 0)) % 1009
